@@ -465,6 +465,11 @@ Proof.
   rewrite bbytes_bapp. reflexivity.
 Qed.
 
+Lemma es_frame_shape c e : es_cfg_ok c ->
+  es_header c e = Ok (es_header_of c e)
+  /\ es_frame_of c e = es_header_of c e ++ [NL] ++ enc e ++ [NL].
+Proof. intro Hc. split; [exact (es_header_ok c e Hc)|reflexivity]. Qed.
+
 Lemma es_append_event_ok c e acc : es_cfg_ok c ->
   es_append_event c e acc = Ok (bapp acc (es_frame_of c e)).
 Proof.
@@ -570,4 +575,431 @@ Proof.
   intro Hbs. eexists _, _. split; [apply kafka_build_spec, Hbs|]. split.
   - apply (k_recs_values c (deliverable batch) []).
   - apply (k_recs_chain c (deliverable batch) 0).
+Qed.
+
+(* ==========================================================================================
+   7. JSON text
+   ========================================================================================== *)
+Lemma jrun_app s a b : jrun s (a ++ b) = match jrun s a with Some s' => jrun s' b | None => None end.
+Proof.
+  revert s. induction a as [|c a IH]; intro s; cbn [app jrun]; [reflexivity|].
+  destruct (jstep s c); [apply IH|reflexivity].
+Qed.
+
+(* induction on the length, for functions that consume several bytes at a time *)
+Lemma bytes_len_ind (P : list N -> Prop) :
+  (forall s : list N, (forall t : list N, (length t < length s)%nat -> P t) -> P s) -> forall s : list N, P s.
+Proof.
+  intros H s. remember (length s) as n eqn:E. revert s E.
+  induction n as [n IH] using lt_wf_ind. intros s ->. apply H. intros t Ht. eapply IH; [exact Ht|reflexivity].
+Qed.
+
+(* a string body keeps the automaton inside the string and brings it back to the string state *)
+Lemma jrun_str_body k stk : forall s, str_body_ok s = true -> jrun (JStr k, stk) s = Some (JStr k, stk).
+Proof.
+  induction s as [s IH] using bytes_len_ind. intro H. destruct s as [|c r]; [reflexivity|].
+  cbn [str_body_ok] in H. cbn [jrun jstep].
+  destruct (N.eqb c QUOTE); [discriminate|]. destruct (N.ltb c 32); [discriminate|].
+  destruct (N.eqb c BSLASH).
+  - destruct r as [|e r']; [discriminate|]. cbn [jrun jstep].
+    destruct (is_simple_esc e).
+    + apply IH; [cbn [length]; lia|exact H].
+    + destruct (N.eqb e 117); [|discriminate].
+      destruct r' as [|h1 [|h2 [|h3 [|h4 r4]]]]; try discriminate.
+      destruct (is_hex h1) eqn:E1; [|discriminate]. destruct (is_hex h2) eqn:E2; [|discriminate].
+      destruct (is_hex h3) eqn:E3; [|discriminate]. destruct (is_hex h4) eqn:E4; [|discriminate].
+      cbn [andb] in H. cbn [jrun jstep]. rewrite E1. cbn [jrun jstep]. rewrite E2. cbn [jrun jstep].
+      rewrite E3. cbn [jrun jstep]. rewrite E4. apply IH; [cbn [length]; lia|exact H].
+  - apply IH; [cbn [length]; lia|exact H].
+Qed.
+
+Lemma str_body_ok_app : forall a b, str_body_ok a = true -> str_body_ok b = true -> str_body_ok (a ++ b) = true.
+Proof.
+  induction a as [a IH] using bytes_len_ind. intros b Ha Hb. destruct a as [|c r]; [exact Hb|].
+  cbn [app str_body_ok] in *.
+  destruct (N.eqb c QUOTE); [discriminate|]. destruct (N.ltb c 32); [discriminate|].
+  destruct (N.eqb c BSLASH).
+  - destruct r as [|e r']; [discriminate|]. cbn [app].
+    destruct (is_simple_esc e).
+    + apply IH; auto. cbn [length]; lia.
+    + destruct (N.eqb e 117); [|discriminate].
+      destruct r' as [|h1 [|h2 [|h3 [|h4 r4]]]]; try discriminate. cbn [app].
+      destruct (is_hex h1 && is_hex h2 && is_hex h3 && is_hex h4); [|discriminate].
+      apply IH; auto. cbn [length]; lia.
+  - apply IH; auto.
+Qed.
+
+Lemma str_body_plain s : forallb is_plain s = true -> str_body_ok s = true.
+Proof.
+  induction s as [|c r IH]; [reflexivity|]. cbn [forallb str_body_ok]. intro H.
+  apply andb_prop in H. destruct H as [Hc Hr]. unfold is_plain in Hc.
+  destruct (N.eqb c QUOTE); [discriminate|]. destruct (N.eqb c BSLASH); [discriminate|].
+  destruct (N.ltb c 32); [discriminate|]. apply IH, Hr.
+Qed.
+
+(* no raw control character (newline, NUL, ...) inside a string body *)
+Lemma str_body_no_ctl : forall s, str_body_ok s = true -> forall c, In c s -> (32 <= c)%N.
+Proof.
+  induction s as [s IH] using bytes_len_ind. intros H c Hin. destruct s as [|x r]; [destruct Hin|].
+  cbn [str_body_ok] in H.
+  destruct (N.eqb x QUOTE); [discriminate|]. destruct (N.ltb_spec x 32) as [|Hx]; [discriminate|].
+  destruct (N.eqb_spec x BSLASH) as [->|Hnb].
+  - destruct r as [|e r']; [discriminate|].
+    destruct Hin as [<-|Hin]; [unfold BSLASH; lia|].
+    destruct (is_simple_esc e) eqn:Ee.
+    + destruct Hin as [<-|Hin].
+      * unfold is_simple_esc in Ee. lia.
+      * eapply (IH r'); eauto. cbn [length]; lia.
+    + destruct (N.eqb_spec e 117) as [->|]; [|discriminate].
+      destruct r' as [|h1 [|h2 [|h3 [|h4 r4]]]]; try discriminate.
+      destruct (is_hex h1) eqn:E1; [|discriminate]. destruct (is_hex h2) eqn:E2; [|discriminate].
+      destruct (is_hex h3) eqn:E3; [|discriminate]. destruct (is_hex h4) eqn:E4; [|discriminate].
+      cbn [andb] in H. unfold is_hex, is_digit in *.
+      destruct Hin as [<-|[<-|[<-|[<-|[<-|Hin]]]]]; try lia.
+      eapply (IH r4); eauto. cbn [length]; lia.
+  - destruct Hin as [<-|Hin]; [lia|]. eapply (IH r); eauto.
+Qed.
+
+Lemma str_body_no_nl s : str_body_ok s = true -> has_nl s = false.
+Proof.
+  intro H. unfold has_nl. destruct (existsb (N.eqb NL) s) eqn:E; [|reflexivity].
+  apply existsb_exists in E. destruct E as (c & Hin & Hc). apply N.eqb_eq in Hc. subst c.
+  pose proof (str_body_no_ctl s H NL Hin). unfold NL in *. lia.
+Qed.
+
+(* the scanner consumes at least the closing quote *)
+Lemma scan_str_shorter : forall s r, scan_str s = Some r -> (length r < length s)%nat.
+Proof.
+  induction s as [s IH] using bytes_len_ind. intros r H. destruct s as [|c t]; [discriminate|].
+  cbn [scan_str] in H. cbn [length].
+  destruct (N.eqb c QUOTE); [inversion H; lia|]. destruct (N.ltb c 32); [discriminate|].
+  destruct (N.eqb c BSLASH).
+  - destruct t as [|e t']; [discriminate|]. cbn [length].
+    destruct (is_simple_esc e).
+    + apply IH in H; cbn [length]; lia.
+    + destruct (N.eqb e 117); [|discriminate].
+      destruct t' as [|h1 [|h2 [|h3 [|h4 t4]]]]; try discriminate.
+      destruct (is_hex h1 && is_hex h2 && is_hex h3 && is_hex h4); [|discriminate].
+      apply IH in H; cbn [length] in *; lia.
+  - apply IH in H; cbn [length]; lia.
+Qed.
+
+Lemma quote_not_hex : is_hex QUOTE = false.
+Proof. reflexivity. Qed.
+
+(* the string literal that starts at the index name closes exactly at the intended quote
+   iff the spliced text is JSON-string-safe *)
+Theorem scan_str_exact : forall s rest,
+  scan_str (s ++ QUOTE :: rest) = Some rest <-> str_body_ok s = true.
+Proof.
+  induction s as [s IH] using bytes_len_ind. intro rest. destruct s as [|c t].
+  - cbn. split; reflexivity.
+  - cbn [app scan_str str_body_ok].
+    destruct (N.eqb c QUOTE).
+    + split; [|discriminate]. intro H. inversion H as [H1].
+      apply (f_equal (@length byte)) in H1. rewrite app_length in H1. cbn [length] in H1. lia.
+    + destruct (N.ltb c 32); [split; discriminate|].
+      destruct (N.eqb c BSLASH); [|apply IH; cbn [length]; lia].
+      destruct t as [|e t'].
+      * cbn [app]. change (is_simple_esc QUOTE) with true. cbv iota. split; [|discriminate].
+        intro H. apply scan_str_shorter in H. lia.
+      * cbn [app]. destruct (is_simple_esc e); [apply IH; cbn [length]; lia|].
+        destruct (N.eqb e 117); [|split; discriminate].
+        destruct t' as [|h1 [|h2 [|h3 [|h4 t4]]]]; cbn [app].
+        -- change (is_hex QUOTE) with false. destruct rest as [|? [|? [|? ?]]]; cbn [andb]; split; discriminate.
+        -- change (is_hex QUOTE) with false. destruct rest as [|? [|? ?]]; rewrite ?andb_false_r; cbn [andb]; split; discriminate.
+        -- change (is_hex QUOTE) with false. destruct rest as [|? ?]; rewrite ?andb_false_r; cbn [andb]; split; discriminate.
+        -- change (is_hex QUOTE) with false. rewrite ?andb_false_r. split; discriminate.
+        -- destruct (is_hex h1 && is_hex h2 && is_hex h3 && is_hex h4); [|split; discriminate].
+           apply IH. cbn [length]; lia.
+Qed.
+
+(* ---- the ES action line ------------------------------------------------------------------- *)
+(* configuration texts must themselves be plain (a quote in index_format is a configuration error) *)
+Definition es_cfg_plain (c : es_cfg) : Prop :=
+  forallb is_plain (es_op c) = true /\ forallb is_plain (es_fmt c) = true /\ str_body_ok (es_time c) = true.
+(* oracle hypothesis on the escaper (checked each run with encoding/json.Valid) *)
+Definition esc_safe (e : ev) : Prop := Forall (fun x => str_body_ok x = true) (ev_esc e).
+
+Lemma oracle_at_ok l k : Forall (fun x => str_body_ok x = true) l -> str_body_ok (oracle_at l k) = true.
+Proof.
+  intro F. unfold oracle_at. destruct (nth_in_or_default k l []) as [Hin | ->]; [|reflexivity].
+  rewrite Forall_forall in F. apply F, Hin.
+Qed.
+
+Lemma es_piece_ok v time e k : str_body_ok time = true -> esc_safe e -> str_body_ok (es_piece v time e k) = true.
+Proof.
+  intros Ht He. destruct v; cbn [es_piece]; [exact Ht|].
+  destruct (is_nil (oracle_at (ev_raw e) k)); [reflexivity|apply oracle_at_ok, He].
+Qed.
+
+Lemma es_name_spec_safe fmt : forall vals k time e s,
+  forallb is_plain fmt = true -> str_body_ok time = true -> esc_safe e ->
+  es_name_spec fmt vals k time e = Ok s -> str_body_ok s = true.
+Proof.
+  induction fmt as [|c r IH]; intros vals k time e s Hp Ht He H; cbn [es_name_spec forallb] in *.
+  - inversion H. reflexivity.
+  - apply andb_prop in Hp. destruct Hp as [Hc Hr]. destruct (N.eqb c PERCENT).
+    + destruct vals as [|v vals']; [discriminate|].
+      destruct (es_name_spec r vals' (S k) time e) as [s'| |] eqn:E; cbn [bind] in H; try discriminate.
+      inversion H. apply str_body_ok_app; [apply es_piece_ok; auto|eapply IH; eauto].
+    + destruct (es_name_spec r vals k time e) as [s'| |] eqn:E; cbn [bind] in H; try discriminate.
+      inversion H. change (c :: s') with ([c] ++ s'). apply str_body_ok_app; [|eapply IH; eauto].
+      apply str_body_plain. cbn [forallb]. rewrite Hc. reflexivity.
+Qed.
+
+Lemma es_name_of_safe c e : es_cfg_ok c -> es_cfg_plain c -> esc_safe e -> str_body_ok (es_name_of c e) = true.
+Proof.
+  intros Hc (Hop & Hfmt & Ht) He. unfold es_name_of.
+  destruct (es_name_spec_total (es_fmt c) (es_vals c) 0 (es_time c) e Hc) as [s Hs]. rewrite Hs.
+  eapply es_name_spec_safe; eauto.
+Qed.
+
+(* any text between the template's quotes: valid as soon as it is string-safe *)
+Lemma jrun_seq s a b s1 r : jrun s a = Some s1 -> jrun s1 b = r -> jrun s (a ++ b) = r.
+Proof. intros H1 H2. rewrite jrun_app, H1. exact H2. Qed.
+
+Lemma es_template_valid op s : str_body_ok op = true -> str_body_ok s = true ->
+  json_valid (es_prefix op ++ s ++ es_suffix) = true.
+Proof.
+  intros Hop Hs.
+  assert (H : jrun (JVal, []) (es_prefix op ++ s ++ es_suffix) = Some (JEnd, [])).
+  { unfold es_prefix. rewrite <- !app_assoc.
+    apply (jrun_seq _ _ _ (JStr true, [CObj])); [reflexivity|].
+    apply (jrun_seq _ _ _ (JStr true, [CObj])); [apply jrun_str_body, Hop|].
+    apply (jrun_seq _ _ _ (JStr false, [CObj; CObj])); [reflexivity|].
+    apply (jrun_seq _ _ _ (JStr false, [CObj; CObj])); [apply jrun_str_body, Hs|].
+    reflexivity. }
+  unfold json_valid. rewrite H. reflexivity.
+Qed.
+
+Lemma has_nl_app a b : has_nl (a ++ b) = has_nl a || has_nl b.
+Proof. apply existsb_app. Qed.
+
+Theorem es_header_valid c e hdr :
+  es_cfg_ok c -> es_cfg_plain c -> esc_safe e ->
+  es_header c e = Ok hdr ->
+  json_valid hdr = true /\ has_nl hdr = false
+  /\ exists name, hdr = es_prefix (es_op c) ++ name ++ es_suffix /\ str_body_ok name = true
+                  /\ scan_str (name ++ es_suffix) = Some [125; 125]%N.
+Proof.
+  intros Hc Hp He H. rewrite (es_header_ok c e Hc) in H. inversion H. subst hdr. clear H.
+  pose proof (es_name_of_safe c e Hc Hp He) as Hn. destruct Hp as (Hop & _ & _).
+  apply str_body_plain in Hop. unfold es_header_of. repeat split.
+  - apply es_template_valid; assumption.
+  - unfold es_prefix. rewrite !has_nl_app, (str_body_no_nl _ Hop), (str_body_no_nl _ Hn). reflexivity.
+  - exists (es_name_of c e). repeat split; [exact Hn|].
+    unfold es_suffix. change ([34; 125; 125]%N) with (QUOTE :: [125; 125]%N). apply scan_str_exact, Hn.
+Qed.
+
+(* why the values must be escaped: the template with a raw quote or newline is not a JSON line *)
+Lemma es_header_needs_escape :
+  json_valid (es_prefix [105]%N ++ [97; 34; 98]%N ++ es_suffix) = false
+  /\ has_nl (es_prefix [105]%N ++ [97; 10; 98]%N ++ es_suffix) = true
+  /\ json_valid (es_prefix [105]%N ++ [97; 10; 98]%N ++ es_suffix) = false.
+Proof. repeat split; vm_compute; reflexivity. Qed.
+
+(* ---- newline / NUL delimited payloads decompose uniquely -------------------------------- *)
+Lemma split_tail_frames sep : forall xs,
+  Forall (fun x => existsb (N.eqb sep) x = false) xs ->
+  split_tail sep (concat (map (fun x => x ++ [sep]) xs)) = (xs, []).
+Proof.
+  induction xs as [|x xs IH]; intro F; [reflexivity|].
+  inversion F as [|? ? Hx Fx]; subst. specialize (IH Fx). cbn [map concat]. clear F Fx.
+  rewrite <- app_assoc.
+  assert (Hrest : split_tail sep ([sep] ++ concat (map (fun x => x ++ [sep]) xs)) = ([] :: xs, [])).
+  { cbn [app split_tail]. rewrite IH, N.eqb_refl. reflexivity. }
+  revert Hrest. generalize ([sep] ++ concat (map (fun x => x ++ [sep]) xs)) as rest. intros rest Hrest.
+  induction x as [|c x IHx]; cbn [app split_tail].
+  - exact Hrest.
+  - cbn [existsb] in Hx. apply orb_false_iff in Hx. destruct Hx as [Hc Hx].
+    rewrite (IHx Hx). rewrite N.eqb_sym, Hc. reflexivity.
+Qed.
+
+(* ==========================================================================================
+   8. what one call of out() sends, for every previous buffer content and every answer script
+   ========================================================================================== *)
+Definition ok_req (q : sreq) : bool := is_ok_status (rq_status q).
+
+(* the exchange part shared by ES and http *)
+Lemma exchange_spec (split : bool) (fs : list bytes) (script : list Z) :
+  exists log script' st err,
+    (if split then send_split (Z.to_nat (len fs)) script 0 (len fs) (offsets 0 fs) (concat fs)
+     else Ok (send_whole script (len fs) (concat fs))) = Ok (log, script', st, err)
+    /\ (split = false -> log = [mkReq 0 (len fs) (concat fs) (fst (next_status script))])
+    /\ Forall (fun q => 0 <= rq_l q /\ rq_r q <= len fs /\ rq_body q = frames_range fs (rq_l q) (rq_r q)) log
+    /\ (err = false ->
+        chain 0 (len fs) (ok_ranges log) /\ concat (map rq_body (filter ok_req log)) = concat fs).
+Proof.
+  destruct split.
+  - destruct (split_covers_once fs script) as (log & sc & st & err & E & F & C).
+    exists log, sc, st, err. repeat split; auto; try discriminate.
+    + eapply Forall_impl; [|exact F]. unfold req_ok. intros q Hq. intuition lia.
+    + apply C, H.
+    + apply C, H.
+  - unfold send_whole. destruct (next_status script) as [st sc] eqn:Hns. cbn [fst].
+    pose proof (len_nonneg fs).
+    eexists _, _, _, _. split; [reflexivity|]. repeat split.
+    + constructor; [|constructor]. cbn [rq_l rq_r rq_body]. repeat split; try lia.
+      symmetry. apply frames_range_all.
+    + unfold ok_ranges. cbn [filter rq_status]. destruct (is_ok_status st); [|discriminate].
+      cbn. repeat split; lia.
+    + unfold ok_req. cbn [filter rq_status]. destruct (is_ok_status st); [|discriminate].
+      cbn. apply app_nil_r.
+Qed.
+
+Theorem es_out_spec c batch prev script : es_cfg_ok c ->
+  let fs := map (es_frame_of c) (deliverable batch) in
+  exists a, es_out c batch prev script = Ok a
+    /\ at_buf a = concat fs
+    /\ (es_split c = false -> at_reqs a = [mkReq 0 (len fs) (concat fs) (fst (next_status script))])
+    /\ Forall (fun q => 0 <= rq_l q /\ rq_r q <= len fs /\ rq_body q = frames_range fs (rq_l q) (rq_r q)) (at_reqs a)
+    /\ (at_err a = false ->
+        chain 0 (len fs) (ok_ranges (at_reqs a)) /\ concat (map rq_body (filter ok_req (at_reqs a))) = concat fs).
+Proof.
+  intro Hc. cbn zeta. unfold es_out. rewrite (es_build_spec c batch prev Hc). cbn [bind].
+  destruct (exchange_spec (es_split c) (map (es_frame_of c) (deliverable batch)) script)
+    as (log & sc & st & err & E & Hw & F & C).
+  rewrite E. cbn [bind]. eexists. split; [reflexivity|]. cbn [at_buf at_reqs at_err]. auto.
+Qed.
+
+Theorem http_out_spec raw split batch prev script :
+  let fs := map (frame_http raw) (deliverable batch) in
+  exists a, http_out raw split batch prev script = Ok a
+    /\ at_buf a = concat fs
+    /\ (split = false -> at_reqs a = [mkReq 0 (len fs) (concat fs) (fst (next_status script))])
+    /\ Forall (fun q => 0 <= rq_l q /\ rq_r q <= len fs /\ rq_body q = frames_range fs (rq_l q) (rq_r q)) (at_reqs a)
+    /\ (at_err a = false ->
+        chain 0 (len fs) (ok_ranges (at_reqs a)) /\ concat (map rq_body (filter ok_req (at_reqs a))) = concat fs).
+Proof.
+  cbn zeta. unfold http_out. rewrite (http_build_spec raw batch prev).
+  destruct (exchange_spec split (map (frame_http raw) (deliverable batch)) script)
+    as (log & sc & st & err & E & Hw & F & C).
+  rewrite E. cbn [bind]. eexists. split; [reflexivity|]. cbn [at_buf at_reqs at_err]. auto.
+Qed.
+
+Theorem file_out_spec batch prev script :
+  exists a, file_out batch prev script = Ok a
+    /\ at_buf a = concat (map frame_file (deliverable batch))
+    /\ map rq_body (at_reqs a) = [concat (map frame_file (deliverable batch))].
+Proof.
+  unfold file_out. rewrite build_frames_spec. eexists. split; [reflexivity|]. split; reflexivity.
+Qed.
+
+Theorem splunk_out_spec batch prev script :
+  exists a, splunk_out batch prev script = Ok a
+    /\ at_buf a = concat (map frame_splunk (deliverable batch))
+    /\ map rq_body (at_reqs a) = [concat (map frame_splunk (deliverable batch))].
+Proof.
+  unfold splunk_out, send_whole. rewrite build_frames_spec. destruct (next_status script) as [st sc].
+  eexists. split; [reflexivity|]. split; reflexivity.
+Qed.
+
+Theorem gelf_out_spec batch prev script :
+  exists a, gelf_out batch prev script = Ok a
+    /\ at_buf a = concat (map frame_gelf (deliverable batch))
+    /\ map rq_body (at_reqs a) = [concat (map frame_gelf (deliverable batch))].
+Proof.
+  unfold gelf_out. rewrite build_frames_spec. destruct (next_status script) as [st sc].
+  eexists. split; [reflexivity|]. split; reflexivity.
+Qed.
+
+(* buffer reuse and retries: the payload of a batch does not depend on what the worker's buffer held
+   nor on how earlier requests were answered — a second attempt re-sends the same bytes *)
+Theorem payload_independent batch :
+  (forall c, es_cfg_ok c -> forall p1 s1 p2 s2 a1 a2,
+      es_out c batch p1 s1 = Ok a1 -> es_out c batch p2 s2 = Ok a2 -> at_buf a1 = at_buf a2)
+  /\ (forall raw sp p1 s1 p2 s2 a1 a2,
+      http_out raw sp batch p1 s1 = Ok a1 -> http_out raw sp batch p2 s2 = Ok a2 -> at_buf a1 = at_buf a2)
+  /\ (forall p1 s1 p2 s2 a1 a2,
+      file_out batch p1 s1 = Ok a1 -> file_out batch p2 s2 = Ok a2 -> at_buf a1 = at_buf a2)
+  /\ (forall p1 s1 p2 s2 a1 a2,
+      splunk_out batch p1 s1 = Ok a1 -> splunk_out batch p2 s2 = Ok a2 -> at_buf a1 = at_buf a2)
+  /\ (forall p1 s1 p2 s2 a1 a2,
+      gelf_out batch p1 s1 = Ok a1 -> gelf_out batch p2 s2 = Ok a2 -> at_buf a1 = at_buf a2)
+  /\ (forall c p1 p2, len (deliverable batch) <= k_batch_size c -> kafka_build c batch p1 = kafka_build c batch p2).
+Proof.
+  split; [|split; [|split; [|split; [|split]]]].
+  - intros c Hc p1 s1 p2 s2 a1 a2 H1 H2.
+    destruct (es_out_spec c batch p1 s1 Hc) as (b1 & E1 & B1 & _).
+    destruct (es_out_spec c batch p2 s2 Hc) as (b2 & E2 & B2 & _). congruence.
+  - intros raw sp p1 s1 p2 s2 a1 a2 H1 H2.
+    destruct (http_out_spec raw sp batch p1 s1) as (b1 & E1 & B1 & _).
+    destruct (http_out_spec raw sp batch p2 s2) as (b2 & E2 & B2 & _). congruence.
+  - intros p1 s1 p2 s2 a1 a2 H1 H2.
+    destruct (file_out_spec batch p1 s1) as (b1 & E1 & B1 & _).
+    destruct (file_out_spec batch p2 s2) as (b2 & E2 & B2 & _). congruence.
+  - intros p1 s1 p2 s2 a1 a2 H1 H2.
+    destruct (splunk_out_spec batch p1 s1) as (b1 & E1 & B1 & _).
+    destruct (splunk_out_spec batch p2 s2) as (b2 & E2 & B2 & _). congruence.
+  - intros p1 s1 p2 s2 a1 a2 H1 H2.
+    destruct (gelf_out_spec batch p1 s1) as (b1 & E1 & B1 & _).
+    destruct (gelf_out_spec batch p2 s2) as (b2 & E2 & B2 & _). congruence.
+  - intros c p1 p2 H. rewrite !kafka_build_spec by exact H. reflexivity.
+Qed.
+
+(* ==========================================================================================
+   9. well-formedness of the line-oriented payloads (under the enc oracle hypotheses)
+   ========================================================================================== *)
+Definition enc_valid (e : ev) : Prop := json_valid (enc e) = true.
+Definition enc_line_safe (e : ev) : Prop := has_nl (enc e) = false.
+
+Lemma es_frames_as_lines c evs :
+  concat (map (es_frame_of c) evs)
+  = concat (map (fun x => x ++ [NL]) (flat_map (fun e => [es_header_of c e; enc e]) evs)).
+Proof.
+  induction evs as [|e r IH]; [reflexivity|]. cbn [map concat flat_map app]. rewrite IH.
+  unfold es_frame_of. rewrite <- !app_assoc. reflexivity.
+Qed.
+
+(* the ES bulk body is exactly 2n lines: action line, document, action line, document, ...;
+   every line is one valid JSON document *)
+Theorem es_payload_lines c batch prev :
+  es_cfg_ok c -> es_cfg_plain c ->
+  Forall esc_safe (deliverable batch) -> Forall enc_line_safe (deliverable batch) -> Forall enc_valid (deliverable batch) ->
+  exists data begin n,
+    es_build c batch prev = Ok (data, begin, n)
+    /\ lines_tail data = (flat_map (fun e => [es_header_of c e; enc e]) (deliverable batch), [])
+    /\ Forall (fun l => json_valid l = true) (flat_map (fun e => [es_header_of c e; enc e]) (deliverable batch)).
+Proof.
+  intros Hc Hp He Hl Hv. eexists _, _, _. split; [apply es_build_spec, Hc|].
+  assert (Hhdr : forall e, In e (deliverable batch) ->
+            json_valid (es_header_of c e) = true /\ has_nl (es_header_of c e) = false).
+  { intros e Hin. rewrite Forall_forall in He.
+    destruct (es_header_valid c e (es_header_of c e) Hc Hp (He e Hin) (es_header_ok c e Hc)) as (H1 & H2 & _).
+    auto. }
+  split.
+  - rewrite es_frames_as_lines. unfold lines_tail. apply split_tail_frames.
+    apply Forall_forall. intros l Hin. apply in_flat_map in Hin. destruct Hin as (e & He' & Hin).
+    destruct Hin as [<-|[<-|[]]].
+    + apply Hhdr, He'.
+    + rewrite Forall_forall in Hl. apply Hl, He'.
+  - apply Forall_forall. intros l Hin. apply in_flat_map in Hin. destruct Hin as (e & He' & Hin).
+    destruct Hin as [<-|[<-|[]]].
+    + apply Hhdr, He'.
+    + rewrite Forall_forall in Hv. apply Hv, He'.
+Qed.
+
+(* file and http (json encoder): the lines of the payload are the events' documents *)
+Theorem ndjson_payload_lines batch prev :
+  Forall enc_line_safe (deliverable batch) ->
+  lines_tail (build_frames frame_file batch prev) = (map enc (deliverable batch), []).
+Proof.
+  intro Hl. rewrite build_frames_spec. unfold lines_tail, frame_file.
+  rewrite <- (map_map enc (fun x => x ++ [NL])). apply split_tail_frames.
+  apply Forall_forall. intros l Hin. apply in_map_iff in Hin. destruct Hin as (e & <- & He).
+  rewrite Forall_forall in Hl. apply Hl, He.
+Qed.
+
+(* ==========================================================================================
+   10. a concrete instance of the hypotheses (used by the non-vacuity example)
+   ========================================================================================== *)
+Definition ex_cfg : es_cfg := mkEs [105]%N [120; 45; 37]%N [IField] [116]%N true.
+Definition ex_e1 : ev := mkEv 0 [123; 49; 125]%N [[97; 34; 98]%N] [[97; 92; 34; 98]%N] [] None.
+Definition ex_e2 : ev := mkEv 2 [123; 50; 125]%N [[]] [[]] [] None.
+Definition ex_e3 : ev := mkEv 0 [123; 51; 125]%N [[]] [[]] [] None.
+Lemma ex_hyps_ok : es_cfg_ok ex_cfg /\ es_cfg_plain ex_cfg /\ esc_safe ex_e1.
+Proof.
+  split; [unfold es_cfg_ok; cbn; lia|]. split; [repeat split; reflexivity|].
+  unfold esc_safe. cbn. repeat constructor.
 Qed.
